@@ -36,6 +36,7 @@ RULES = {
     "C08-H5": "the buffer is NUL-terminated after the last change of the fill level before every parse",
     "C08-H7": "the text attached to -113 is cut before every trailing terminator byte (CR and LF alike), so it does not depend on whether CR and LF arrived in the same call",
     "C08-H10": "the overrun refusal is decided from the pending unterminated data, not from the length of the chunk handed in (else the outcome depends on the partition)",
+    "C08-H11": "every byte of the chunk is appended: the append copies (data, len) as received, neither is modified before it",
     "C08-H8": "the overrun refusal is exact: a chunk is refused only if position + len + 1 > buffer length (data that fits is never discarded)",
     "C08-H9": "definite-length block: once the '#', the digit count and all length digits have been read the block is either complete or incomplete (rest swallowed) - never rejected, whatever the announced length",
     "C08-H6": "a line is executed exactly when the scanner reports a NL termination",
@@ -464,6 +465,37 @@ def rule_h10(ck, prog, S):
         ck.holds("C08-H10", st, K.loc(f, pushes[0]), "the refusal does not depend on the chunk length `%s`" % lenp)
 
 
+def rule_h11(ck, prog, S):
+    """Every byte handed in is appended: the append copies exactly (data, len) as received.  Dropping or skipping bytes of
+    the chunk before they reach the buffer (leading blanks while the buffer is empty, ...) makes the content of the
+    buffer depend on where the stream was cut."""
+    f = prog.fn("SCPI_Input")
+    if f is None or len(f.params) < 3:
+        return
+    cps = list(f.calls("memcpy"))
+    if len(cps) != 1:
+        return          # H8 reports the lost anchor
+    cp = cps[0]
+    datap, lenp = f.params[1]["name"], f.params[2]["name"]
+    st = K.site(f, "chunk-appended-unchanged", 0)
+    a = C.call_args(cp)
+    pg = S.pg(f)
+    probs = []
+    if a[1].strip_all_casts().get("path") != datap or a[2].strip_all_casts().get("path") != lenp:
+        probs.append("the append copies (`%s`, `%s`), not the chunk (`%s`, `%s`) as received" % (a[1].src, a[2].src, datap, lenp))
+    for n_, t in C.stores(f):
+        if t.get("path") in (datap, lenp):
+            after = pg.after(n_)
+            if after is not None and pg.before(cp) in pg.reachable([after]):
+                probs.append("`%s` changes the chunk before it is appended: bytes of the stream are dropped depending on the state "
+                             "of the buffer at the time of the call, i.e. on the partition" % n_.src)
+                break
+    if probs:
+        ck.violated("C08-H11", st, K.loc(f, cp), "; ".join(probs))
+    else:
+        ck.holds("C08-H11", st, K.loc(f, cp), "memcpy(&buffer[position], %s, %s) with both parameters untouched" % (datap, lenp))
+
+
 def run(ck, fb, tier):
     for cfg in fb.configs:
         ck.config = cfg
@@ -472,6 +504,7 @@ def run(ck, fb, tier):
         model = LexModel(prog, S)
         rule_h1(ck, prog, S, model)
         rule_h10(ck, prog, S)
+        rule_h11(ck, prog, S)
         rule_h2_h6(ck, prog, S)
         # shared rules, recorded under this property's ids
         c09_h3(ck, prog)
